@@ -141,6 +141,22 @@ def _combined_return(fn):
     raise TranslateError("`if self.combine_terms: return …` not found")
 
 
+def _check_uncombined_returns(fn):
+    """`combine_terms=False`: the separately returned terms must be exactly the variables the combined value is built
+    from, in the documented order (so that what the theorems say about `klTerm` … is what the caller receives)."""
+    want = [["log_likelihood", "kl_divergence", "log_prior", "added_loss"], ["log_likelihood", "kl_divergence", "log_prior"]]
+    got = []
+    for st in ast.walk(fn):
+        if isinstance(st, ast.If) and ast.unparse(st.test) == "self.combine_terms":
+            for r in ast.walk(ast.Module(body=st.orelse, type_ignores=[])):
+                if isinstance(r, ast.Return):
+                    if not isinstance(r.value, ast.Tuple) or not all(isinstance(e, ast.Name) for e in r.value.elts):
+                        raise TranslateError(f"combine_terms=False return is not a tuple of variables: {ast.unparse(r)}")
+                    got.append([e.id for e in r.value.elts])
+    if sorted(got) != sorted(want):
+        raise TranslateError(f"combine_terms=False returns {got}, expected {want}")
+
+
 def _term(repo, fname, cls):
     tree = ast.parse(open(os.path.join(repo, "gpytorch", "mlls", fname)).read())
     fn = _find_method(_find_class(tree, cls), "_log_likelihood_term")
@@ -174,6 +190,7 @@ def translate(repo):
         raise TranslateError(f"log-prior reduction not recognised: {ast.unparse(lp_node)}")
     al = expr(_accumulated(fwd, "added_loss"))
     comb = expr(_combined_return(fwd))
+    _check_uncombined_returns(fwd)
     elbo_m = _term(repo, "variational_elbo.py", "VariationalELBO")
     pll_m = _term(repo, "predictive_log_likelihood.py", "PredictiveLogLikelihood")
     # NGD.step
@@ -192,7 +209,22 @@ def translate(repo):
             "ngd": ngd, "alpha": alpha, "lp_form": lp_form}
 
 
+SCOPES = {"ll": {"llTerm", "numBatch", "kl", "numData", "beta"}, "kl": {"llTerm", "numBatch", "kl", "numData", "beta"},
+          "lp": {"lp", "llTerm", "numBatch", "kl", "numData", "beta"}, "al": {"loss", "llTerm", "numBatch", "kl", "numData", "beta"},
+          "comb": {"logLikelihood", "klDivergence", "logPrior", "addedLoss", "llTerm", "numBatch", "kl", "numData", "beta"},
+          "ngd": {"p", "grad", "lr", "numData"}}
+
+
+def check_scopes(t):
+    import re
+    for k, allowed in SCOPES.items():
+        used = set(re.findall(r"[A-Za-z_][A-Za-z_0-9]*", t[k])) - {"α"}
+        if not used <= allowed:
+            raise TranslateError(f"expression `{k}` = {t[k]} refers to {sorted(used - allowed)}, not available there")
+
+
 def render(t):
+    check_scopes(t)
     return f"""/-
 GENERATED by harness/translate/g4_elbo_scaling.py from gpytorch/mlls/_approximate_mll.py,
 variational_elbo.py, predictive_log_likelihood.py and optim/ngd.py — do not edit.
@@ -218,7 +250,7 @@ def logPriorItem (lp llTerm numBatch kl numData beta : α) : α := {t['lp']}
 def addedLossItem (loss llTerm numBatch kl numData beta : α) : α := {t['al']}
 
 /-- the returned combination (`combine_terms=True`) -/
-def combine (logLikelihood klDivergence logPrior addedLoss : α) : α := {t['comb']}
+def combine (logLikelihood klDivergence logPrior addedLoss llTerm numBatch kl numData beta : α) : α := {t['comb']}
 
 /-- `_ApproximateMarginalLogLikelihood.forward`: accumulators start at zero and are filled by the two loops.
 (Every generated expression receives the same environment `llTerm numBatch kl numData beta`, so that a changed
@@ -227,6 +259,7 @@ def forward (llTerm numBatch kl numData beta : α) (lps losses : List α) : α :
   combine (logLikelihood llTerm numBatch kl numData beta) (klTerm llTerm numBatch kl numData beta)
     (lps.foldl (fun acc lp => acc + logPriorItem lp llTerm numBatch kl numData beta) 0)
     (losses.foldl (fun acc loss => acc + addedLossItem loss llTerm numBatch kl numData beta) 0)
+    llTerm numBatch kl numData beta
 
 /-- `NGD.step`: `p.add_(p.grad, alpha = {t['alpha']})` -/
 def ngdStep (p grad lr numData : α) : α := {t['ngd']}
@@ -241,11 +274,33 @@ end Gen.ElboScaling
 """
 
 
+def _elaborates(text, out_path):
+    """Type-check the candidate generated file with Lean *before* it replaces the current one: a source change that
+    leads to an ill-scoped / ill-typed term (e.g. a dropped transpose -> dimension mismatch) is a broken tie
+    (`TranslateError`), never a generated module that does not build."""
+    import subprocess
+    lean_dir = os.path.dirname(os.path.dirname(os.path.dirname(os.path.abspath(out_path))))
+    os.makedirs(os.path.join(lean_dir, ".audit"), exist_ok=True)
+    cand = os.path.join(lean_dir, ".audit", os.path.basename(out_path)[:-5] + "Candidate.lean")
+    with open(cand, "w") as fh:
+        fh.write(text)
+    try:
+        p = subprocess.run(["lake", "env", "lean", cand], cwd=lean_dir, capture_output=True, text=True, timeout=600)
+    finally:
+        os.remove(cand)
+    errs = [l for l in (p.stdout + p.stderr).split("\n") if "error" in l]
+    return p.returncode == 0 and not errs, "\n".join(errs[:5])
+
+
 def generate(repo, out_path):
     t = translate(repo)
     text = render(t)
     old = open(out_path).read() if os.path.exists(out_path) else None
     if old != text:
+        ok, errs = _elaborates(text, out_path)
+        if not ok:
+            raise TranslateError("generated definitions do not elaborate (ill-scoped or ill-typed term for the current "
+                                 "source; the previous generated file is kept):\n" + errs)
         tmp = out_path + ".tmp"
         with open(tmp, "w") as fh:
             fh.write(text)
